@@ -18,7 +18,9 @@ RULE = (
     "file / symlink).  (a) for every writer - write_config, write_autoconf, write_min_config, sync_deps' auto.conf and the "
     "kconfgen command line (formats config, header, cmake, json, json_menus, savedefconfig) - the destination is pre-aged to "
     "a sentinel mtime; regenerating the unchanged configuration must leave bytes, st_mtime_ns and inode untouched, "
-    "regenerating a changed one must produce exactly the new content.  (b) the save of c2 over the file holding c1 with "
+    "regenerating a changed one must produce exactly the new content; half of the cases carry a rename file with several "
+    "deprecated names per option, and for one case in eight the kconfgen command line is repeated in two NEW interpreter "
+    "processes with different hash seeds (every build starts a new process), which must not touch the files either.  (b) the save of c2 over the file holding c1 with "
     "backup enabled (write_config as menuconfig calls it, and the config server's save request) is run once in counting "
     "mode, then re-run from a pristine copy with a crash injected at EVERY mutating file-system operation (os.replace, "
     "copy chunks, truncating open, every write with prefixes {0, every line boundary, mid-line, all}, close); at every "
@@ -33,7 +35,7 @@ ASSUMPTIONS = [
 ]
 BUDGET = {"quick": {"examples": 1600}, "thorough": {"examples": 200000, "deadline_s": 900}}
 
-CFG = gen.cfg(max_syms=8, string_tier="U")
+CFG = gen.cfg(max_syms=8, string_tier="U", p_empty_string=15)
 SENTINEL_NS = 1_000_000_000 * 1_600_000_000  # 2020-09-13
 STATS = {"crash_points": 0}
 
@@ -44,7 +46,17 @@ def _cases(draw):
     tree = gen._Builder(d, CFG).build()
     a1 = gen.gen_assignments(d, tree, CFG, 0, 5, kinds=[(90, "valid"), (10, "alt")])
     a2 = [] if d.chance(35) else gen.gen_assignments(d, tree, CFG, 1, 4, kinds=[(90, "valid"), (10, "alt")])
-    return {"tree": tree, "a1": a1, "a2": a2, "symlink": d.chance(35), "door": d.weighted([(6, "write_config"), (4, "server-save")]), "mid": d.int(1, 40)}
+    # several deprecated names per option (their order in the outputs must not depend on anything but the inputs), and for
+    # one case in eight the regeneration is repeated in two NEW processes with different hash seeds - every build starts a
+    # new kconfgen process
+    renames = gen.gen_renames(d, tree, 2, 6, dup_pct=0, undefined_pct=0, lower_pct=0) if d.chance(50) else None
+    if renames:
+        target = d.pick(renames)[1]
+        for r in renames:
+            if d.chance(60):
+                r[1] = target
+                r[2] = r[2] and tree["types"][target] == "bool"
+    return {"tree": tree, "a1": a1, "a2": a2, "symlink": d.chance(35), "door": d.weighted([(6, "write_config"), (4, "server-save")]), "mid": d.int(1, 40), "renames": renames, "xproc": d.chance(12)}
 
 
 def strategy(tier):
@@ -157,6 +169,12 @@ def _part_a_cli(case, k, d, res: Result) -> None:
     k.write_config(sdk)
     outs = {fmt: os.path.join(d, f"cli.{fmt}") for fmt in ("config", "header", "cmake", "json", "json_menus", "savedefconfig")}
     args = ["--kconfig", os.path.join(d, "Kconfig"), "--config", sdk]
+    if case.get("renames"):
+        rp = os.path.join(d, "cli.sdkconfig.rename")
+        with open(rp, "w") as f:
+            f.write(gen.render_renames(case["renames"]))
+        args += ["--sdkconfig-rename", rp]
+        res.label("with-rename-file")
     for fmt, p in outs.items():
         args += ["--output", fmt, p]
     saved_env = dict(os.environ)
@@ -170,11 +188,34 @@ def _part_a_cli(case, k, d, res: Result) -> None:
             for fmt, p in outs.items():
                 if (_read(p), _stat(p)) != snap[fmt]:
                     res.fail(f"rewritten-unchanged|kconfgen-cli|{fmt}", f"kconfgen --output {fmt}: second run on an unchanged configuration touched the file")
+            if case.get("xproc") and not res.violations:
+                _cross_process(case, args, outs, snap, res)
     finally:
         for key in list(os.environ):
             if key not in saved_env:
                 del os.environ[key]
         os.environ.update(saved_env)
+
+
+def _cross_process(case, args, outs, snap, res: Result) -> None:
+    """The same command line in two new interpreter processes with different hash seeds: still nothing to rewrite."""
+    import subprocess
+    import sys
+
+    from .. import env as vkenv
+
+    res.label("cross-process-regeneration")
+    for hseed in ("101", "202"):
+        e = dict(os.environ, PYTHONHASHSEED=hseed, PYTHONPATH=vkenv.REPO, PYTHONDONTWRITEBYTECODE="1", KCONFIG_REPORT_VERBOSITY="quiet")
+        p = subprocess.run([sys.executable, "-m", "kconfgen"] + args, env=e, capture_output=True, text=True, timeout=120)
+        if p.returncode != 0:
+            res.fail("kconfgen-cli|subprocess-failed", f"python -m kconfgen exited {p.returncode}: {p.stderr[-300:]}")
+            return
+        for fmt, path in outs.items():
+            if (_read(path), _stat(path)) != snap[fmt]:
+                kind = "content" if _read(path) != snap[fmt][0] else "mtime"
+                res.fail(f"rewritten-unchanged|new-process|{fmt}|{kind}", f"kconfgen --output {fmt} in a new process (PYTHONHASHSEED={hseed}) rewrote the file although the configuration is unchanged ({kind} differs)")
+                return
 
 
 # ---- (b) a save never loses both copies ---------------------------------------------------------------------------------
